@@ -368,7 +368,22 @@ pub fn run(ctx: &mut Ctx) {
                 `#[doc = \"mk_n\"]`, path-style, inside `allow(..)`) on the item, its members and their parameters, plus enabled/disabled `cfg` attributes; \
                 non-trivial = accepted by the macro and >=1 marker; distinct = distinct (attr, item) text; cfg-disabled members are counted in their own class"
         .into();
-    let open = crate::ev::open_findings("C18");
+    {
+        let head = "#![allow(warnings)]\npub trait Other { fn other(&self) -> i32; }\npub fn run() -> Vec<String> { vec![] }\n";
+        let module = "mod m {\n    pub fn a(_deps: &impl ::core::any::Any, x: i32) -> i32 { x }\n    #[cfg(any())]\n    pub fn b(deps: &impl super::Other, x: i32) -> i32 { deps.other() + x }\n}\n";
+        let real = format!("{head}#[::entrait::entrait(pub TheTrait)]\n{module}pub fn u() -> i32 {{ <::entrait::Impl<()> as TheTrait>::a(&::entrait::Impl::new(()), 1) }}\n");
+        let twin = format!("{head}{module}");
+        if !super::common::probe_open_findings_with(
+            ctx,
+            "C18",
+            false,
+            &[("cfg-disabled-member-contributes-bounds", real, twin, &["E0277", "E0599"])],
+            &["cfg-disabled-member-dangles"],
+        ) {
+            return;
+        }
+    }
+    let open: Vec<_> = crate::ev::open_findings("C18").into_iter().filter(|f| f.key != "cfg-disabled-member-contributes-bounds").collect();
     let dangling_open = open.iter().any(|f| f.key == "cfg-disabled-member-dangles");
     for f in &open {
         if f.key != "cfg-disabled-member-dangles" {
